@@ -534,7 +534,109 @@ class _Blocks(ast.NodeTransformer):
         return out
 
 
+_UNRELATED_BUILTINS = {"dict", "list", "tuple", "str", "bytes", "set", "frozenset", "float", "complex", "type(None)"}
+
+
+def _single_dispatch(body, is_class):
+    """functools.singledispatch / singledispatchmethod with explicit registrations in the same scope:
+
+        @singledispatch            def f(x, ...):
+        def f(x, ...): D               if isinstance(x, T): return f__impl0(x, ...)
+        @f.register(T)        ->       return f__default(x, ...)
+        def _(x, ...): B           def f__default(x, ...): D
+                                   def f__impl0(x, ...): B
+
+    Dispatch is on the class of the first argument; with more than one registration the registered classes must be
+    builtins that are not subclasses of one another (otherwise the most specific one would have to be found)."""
+    def deco_name(d):
+        return ast.unparse(d.func if isinstance(d, ast.Call) else d)
+    generic = {}
+    for st in body:
+        if isinstance(st, ast.FunctionDef):
+            for d in st.decorator_list:
+                if not isinstance(d, ast.Call) and deco_name(d) in ("functools.singledispatch", "singledispatch",
+                                                                    "functools.singledispatchmethod", "singledispatchmethod"):
+                    generic[st.name] = (st, deco_name(d).endswith("method"))
+    if not generic:
+        return body
+    impls = {n: [] for n in generic}
+    for st in body:
+        if isinstance(st, ast.FunctionDef):
+            for d in st.decorator_list:
+                if isinstance(d, ast.Call) and isinstance(d.func, ast.Attribute) and d.func.attr == "register" and \
+                        isinstance(d.func.value, ast.Name) and d.func.value.id in generic and len(d.args) == 1 and not d.keywords:
+                    impls[d.func.value.id].append((st, d, d.args[0]))
+                elif isinstance(d, ast.Attribute) and d.attr == "register" and isinstance(d.value, ast.Name) and d.value.id in generic:
+                    impls[d.value.id].append((st, d, None))         # registration by annotation: not followed
+    out = list(body)
+    for name, (fn, method) in generic.items():
+        regs = impls[name]
+        if not regs or any(t is None for _, _, t in regs) or any(len(st.decorator_list) != 1 for st, _, _ in regs) or \
+                len(fn.decorator_list) != 1 or fn.args.vararg or fn.args.kwarg or fn.args.kwonlyargs:
+            continue
+        if len(regs) > 1 and not all(ast.unparse(t) in _UNRELATED_BUILTINS for _, _, t in regs):
+            continue
+        if method != is_class:
+            continue
+        params = [a.arg for a in fn.args.args]
+        first = 1 if is_class else 0
+        if len(params) <= first:
+            continue
+        # uses of the registered functions' own names elsewhere would break when they are renamed
+        used = {n.id for st in body for n in ast.walk(st) if isinstance(n, ast.Name)} | \
+               {n.attr for st in body for n in ast.walk(st) if isinstance(n, ast.Attribute)}
+        if any(st.name != "_" and st.name in used for st, _, _ in regs):
+            continue
+
+        def call(target):
+            if is_class:
+                f = ast.Attribute(value=ast.Name(id=params[0], ctx=ast.Load()), attr=target, ctx=ast.Load())
+                args = [ast.Name(id=p, ctx=ast.Load()) for p in params[1:]]
+            else:
+                f = ast.Name(id=target, ctx=ast.Load())
+                args = [ast.Name(id=p, ctx=ast.Load()) for p in params]
+            return ast.Return(value=ast.Call(func=f, args=args, keywords=[]))
+        stmts = []
+        for i, (st, d, t) in enumerate(regs):
+            test = ast.Call(func=ast.Name(id="isinstance", ctx=ast.Load()),
+                            args=[ast.Name(id=params[first], ctx=ast.Load()), t], keywords=[])
+            stmts.append(ast.If(test=test, body=[call(f"{name}__impl{i}")], orelse=[]))
+        stmts.append(call(f"{name}__default"))
+        import copy as _copy
+        default = _copy.copy(fn)
+        default.name, default.decorator_list = f"{name}__default", []
+        if not [x for x in default.body if not (isinstance(x, ast.Expr) and isinstance(x.value, ast.Constant))]:
+            default.body = list(default.body) + [ast.copy_location(ast.Pass(), fn)]
+        dispatcher = _copy.copy(fn)
+        dispatcher.decorator_list = []
+        dispatcher.body = stmts
+        for x in stmts:
+            ast.copy_location(x, fn)
+            for n in ast.walk(x):
+                if isinstance(n, (ast.expr, ast.stmt)) and not hasattr(n, "lineno"):
+                    ast.copy_location(n, fn)
+        renamed = []
+        for i, (st, d, t) in enumerate(regs):
+            r = _copy.copy(st)
+            r.name, r.decorator_list = f"{name}__impl{i}", []
+            renamed.append((st, r))
+        new = []
+        for st in out:
+            if st is fn:
+                new += [dispatcher, default]
+            else:
+                new.append(next((r for o, r in renamed if o is st), st))
+        out = new
+    for st in out:
+        ast.fix_missing_locations(st)
+    return out
+
+
 def desugar(tree):
+    tree.body = _single_dispatch(tree.body, False)
+    for n in ast.walk(tree):
+        if isinstance(n, ast.ClassDef):
+            n.body = _single_dispatch(n.body, True)
     rebound = set()
     dotted = {}
     for n in ast.walk(tree):
